@@ -190,7 +190,15 @@ def execute(sc, ctx) -> None:
         fr.seek(0, 0)
         if fr.cur_data_pos_stream != 0:
             raise Violation("C02/open/position-after-seek0", f"{fr.cur_data_pos_stream}")
+        held = []  # (returned array, bytes it must keep holding): results the caller still holds
+
         for i, op in enumerate(sc["ops"]):
+            for arr_h, want_h, i0 in held[-6:]:
+                if np.ascontiguousarray(arr_h).tobytes() != want_h:
+                    raise Violation("C02/held-result-changed-by-a-later-operation", f"the array returned by op {i0} changed before op {i}",
+                                    {"api": sc["ops"][i0]["op"], **sc["ops"][i0]})
+            if held:
+                ctx.probe("held-results-rechecked")
             sim.begin_op(i)
             kind = op["op"]
             fired_before = sum(ctx.faults.values())
@@ -259,6 +267,7 @@ def execute(sc, ctx) -> None:
                         ctx.probe("cread0")
                     if nbytes:
                         ctx.probe("compared-read")
+                        held.append((result, np.ascontiguousarray(result).tobytes(), i))
                     pos += nbytes
                     ctx.log("op", i, kind, op["n"], _crc(np.asarray(result).tobytes()))
             elif kind == "creadinto":
@@ -309,6 +318,7 @@ def execute(sc, ctx) -> None:
                         raise Violation(f"C02/read_block/wrong-data/{tag}", _diff(data, exp), info)
                     _span_probes(ctx, st * stride, ns * stride, inner, bounds)
                     ctx.probe("compared-read")
+                    held.append((result.data, np.ascontiguousarray(result.data).tobytes(), i))
                     pos = (st + ns) * stride
                     ctx.log("op", i, kind, st, ns, _crc(np.ascontiguousarray(data).tobytes()))
             ctx.sig.append(f"{kind}:{'raise' if raised is not None else 'ok'}:{tag}")
